@@ -462,6 +462,13 @@ class Machine:
             if op == 'Ne':
                 return bnot(T.mk('Bool', 'fp.eq', a, b))
             return T.mk('Bool', {'Eq': 'fp.eq', 'Lt': 'fp.lt', 'Le': 'fp.leq', 'Gt': 'fp.gt', 'Ge': 'fp.geq'}[op], a, b)
+        if s.mode == 'UF' and op in ('Add', 'Sub', 'Mul', 'Div') and (is_sym(a) or is_sym(b)):
+            # no algebraic law at all: equal terms mean the same operations on the same operands in the same order
+            # (IEEE add and mul are commutative, so their operands are put in a canonical order)
+            x, y = to_real(a), to_real(b)
+            if op in ('Add', 'Mul') and repr(x) > repr(y):
+                x, y = y, x
+            return app('f' + op.lower() + '_' + ty, 'Real', x, y)
         if s.mode == 'ERR' and op in ('Add', 'Sub', 'Mul', 'Div') and (is_sym(a) or is_sym(b)):
             # rounding-error model: exact real result times (1 + delta), |delta| <= unit roundoff (normal range)
             from .terms import fresh
@@ -580,6 +587,8 @@ class Machine:
                         return [-float(a)]
                     if s.mode == 'FP':
                         return [T.mk(sort_of(a), 'fp.neg', a)]
+                    if s.mode == 'UF' and is_sym(a):
+                        return [app('fneg_' + aty, 'Real', a)]
                     return [neg(a)]
                 if is_sym(a):
                     return [neg(a, 'Int')]
